@@ -31,6 +31,9 @@ pub enum SOp {
     A(String, String),
     S(String, String),
     B(String, Vec<u8>),
+    /// add_sass_file(path); the second field lists every file the stylesheet loads (itself, partials,
+    /// imports), which the model cannot know (rsass is opaque) but the harness does: it wrote them
+    X(String, Vec<String>),
 }
 
 #[derive(Clone, Debug)]
@@ -308,6 +311,13 @@ pub fn run_once(exe: &Path, root: &Path, outdir: &Path, script: &[SOp], k: usize
                 alltext.push_str(&a);
                 alltext.push_str(to);
             }
+            SOp::X(p, loaded) => {
+                for l in loaded {
+                    inputs.push((abs(l), false));
+                }
+                child_ops.push(format!("X {}", hex(pass(p).as_bytes())));
+                alltext.push_str(&abs(p));
+            }
             SOp::B(p, data) => {
                 let a = abs(p);
                 ops_model.push(format!("B:{}:{}", hex(a.as_bytes()), hex(data)));
@@ -474,7 +484,15 @@ fn rand_tree(r: &mut Rng, depth: usize, prefix: &str, out: &mut Vec<Step>, allow
             }
             _ => {
                 if depth > 0 {
-                    let d = *r.pick(DIRS);
+                    // now and then a directory named like the function of a sibling template (`page_html/` beside
+                    // `page.rs.html`): a module and a function of one name live in different namespaces
+                    let d: String = if r.chance(1, 5) {
+                        let ext = *r.pick(EXTS);
+                        out.push(Step::Write(format!("{prefix}{stem}.rs.{ext}"), r.pick(GOOD_TEMPLATES).as_bytes().to_vec()));
+                        if r.chance(1, 2) { format!("{stem}_{ext}") } else { format!("template_{stem}_{ext}") }
+                    } else {
+                        r.pick(DIRS).to_string()
+                    };
                     out.push(Step::Mkdir(format!("{prefix}{d}")));
                     rand_tree(r, depth - 1, &format!("{prefix}{d}/"), out, allow_bad);
                 }
@@ -676,6 +694,45 @@ fn statics_scenario(r: &mut Rng, twin: usize) -> Scenario {
     Scenario { kind: "statics", steps, script, twin }
 }
 
+/// C17 with the `sass` feature: stylesheets whose partials / imports live in the same directory, in a
+/// sub-directory, in a sibling directory (`../shared/_colors.scss`) and two levels away
+fn sass_scenario(r: &mut Rng) -> Scenario {
+    let mut steps = Vec::new();
+    let mut script = Vec::new();
+    let layouts: &[(&str, &[(&str, &str)], &str)] = &[
+        ("scss/site/style.scss", &[("scss/site/_layout.scss", "layout"), ("scss/shared/_colors.scss", "../shared/colors")], "body{margin:0}"),
+        ("scss/style.scss", &[("scss/_a.scss", "a"), ("scss/parts/_b.scss", "parts/b")], "p{x:1}"),
+        ("style.scss", &[], "a{b:c}"),
+        ("scss/deep/er/main.scss", &[("scss/_top.scss", "../../top"), ("scss/deep/_mid.scss", "../mid"), ("vendor/lib/_v.scss", "../../../vendor/lib/v")], "i{j:k}"),
+        ("scss/one.scss", &[("scss/two.scss", "two.scss"), ("other/_three.scss", "../other/three")], "q{r:s}"),
+    ];
+    let n = r.range(1, 3);
+    for i in 0..n {
+        let (main, parts, body) = *r.pick(layouts);
+        let main = format!("s{i}/{main}");
+        let mut text = String::new();
+        let mut loaded = vec![main.clone()];
+        for (file, import) in parts.iter() {
+            if r.chance(3, 4) {
+                let f = format!("s{i}/{file}");
+                steps.push(Step::Write(f.clone(), format!("$c{}: red;\n.from_{} {{ c: d }}\n", loaded.len(), loaded.len()).into_bytes()));
+                text.push_str(&format!("@import \"{import}\";\n"));
+                loaded.push(f);
+            }
+        }
+        text.push_str(body);
+        text.push('\n');
+        steps.push(Step::Write(main.clone(), text.into_bytes()));
+        script.push(SOp::X(main, loaded));
+    }
+    if r.chance(1, 2) {
+        steps.push(Step::Write("static/logo.png".into(), rand_content(r)));
+        script.insert(0, SOp::F("static/logo.png".into()));
+    }
+    steps.push(Step::Run);
+    Scenario { kind: "sassimports", steps, script, twin: 0 }
+}
+
 fn tree_scenario(r: &mut Rng, twin: usize, allow_bad: bool) -> Scenario {
     let mut steps = vec![Step::Mkdir("templates".into())];
     rand_tree(r, 3, "templates/", &mut steps, allow_bad);
@@ -789,6 +846,12 @@ pub fn scenarios(args: &crate::Args) -> Vec<Scenario> {
             }
         }
     }
+    if args.mix.split(',').any(|m| m == "sassimports") {
+        let mut r = Rng::new(args.seed, "script-sass");
+        for _ in 0..args.n {
+            out.push(sass_scenario(&mut r));
+        }
+    }
     if want("history") {
         let mut r = Rng::new(args.seed, "script-history");
         for _ in 0..args.n {
@@ -799,8 +862,26 @@ pub fn scenarios(args: &crate::Args) -> Vec<Scenario> {
 }
 
 // ------------------------------------------------------------------------------------ oracles
+/// lexical normalisation (`a/b/../c` = `a/c`): cargo stats the path, so both spellings name one file
+fn lexical(path: &str) -> String {
+    let mut out: Vec<&str> = Vec::new();
+    for c in path.split('/') {
+        match c {
+            "." => {}
+            ".." if out.last().map_or(false, |l| !l.is_empty() && *l != "..") => {
+                out.pop();
+            }
+            _ => out.push(c),
+        }
+    }
+    out.join("/")
+}
+
 fn covered(path: &str, lines: &BTreeSet<String>) -> bool {
-    let mut p = Path::new(path);
+    let lines: BTreeSet<String> = lines.iter().map(|l| lexical(l)).collect();
+    let lines = &lines;
+    let path = lexical(path);
+    let mut p = Path::new(&path);
     loop {
         if lines.contains(&p.display().to_string()) {
             return true;
